@@ -776,7 +776,7 @@ func (x *Exec) assumeType(st *State, t string, typ types.Type) {
 	case *types.Slice:
 		vc.assert(implies(st.reach, and(app("<=", "0", app("s_off", t)), app("<=", "0", app("s_len", t)), app("<=", app("s_len", t), app("s_cap", t)),
 			app("<=", "0", app("s_arr", t)), app("<", app("s_arr", t), vc.getNext(st)),
-			implies(eq(app("s_arr", t), "0"), eq(app("s_cap", t), "0")))))
+			implies(eq(app("s_arr", t), "0"), eq(app("s_cap", t), "0")), app("<=", app("s_cap", t), "9223372036854775807"))))
 	case *types.Interface:
 		vc.assert(implies(st.reach, and(app(">=", app("a_typ", t), "0"), implies(eq(app("a_typ", t), "0"), eq(app("a_val", t), "0")), app("<", app("a_val", t), vc.getNext(st)))))
 	case *types.Struct:
